@@ -92,7 +92,10 @@ LEVEL_TEXT["C14"] = ("Theorems: the ranking is duplicate-free, sorted by size an
                      "history of iterations with non-negative terminal values (tree_invariant, every n ≥ 2, every limit, plain / plus) these hold at every node of every reachable state. Tie: real GameRegretMinimizer vs the exact Rat model, structure exact, float32 numbers within 1e-5.")
 LEVEL_TEXT["C15"] = ("Theorems for every n and ordered field: the in-place singleton-by-singleton loop equals the closed form w = v − Σ singletons; w is superadditive, ≥ 0, monotone, so w/w(N) ∈ [0,1] "
                      "with singletons 0 and grand 1, superadditive again; w(N) = 0 ⇒ w ≡ 0; graph game and its table normalise to the same values; denormalize∘normalize = id. Tie: exact stream "
-                     "(strings) in both representations + float stream over every generator family with the property clauses as oracle.")
+                     "(strings) in both representations + float stream over every generator family with the property clauses as oracle. 'To float rounding' is made precise by ICG.ApproxNormalize "
+                     "(Props/FloatErrorNormalize): under the standard relative-error model (each +, −, ×, ÷ the code performs, in its order, has relative error ≤ u) singletons normalise to exactly 0, the grand "
+                     "coalition to within u of 1, every value into [−slack, 1+slack] with an explicit slack(u, n, M/w(N)), and denormalize∘normalize returns v within an explicit bound that is ≤ 71·(n+1)·u·M "
+                     "(linear in u; exact at u = 0), provided the game lies outside the additive-tolerance window by a stated margin.")
 LEVEL_NOTE["C12"] = LEVEL_NOTE["default"] + " multiprocessing.Pool chunking / pickling is modelled from measurements (DESIGN 3.6), not verified; the theorems quantify over all chunkings."
 LEVEL_NOTE["C11"] = LEVEL_NOTE["C12"]
 LEVEL_NOTE["C14"] = LEVEL_NOTE["default"] + " float32 arithmetic is outside the theorems."
